@@ -66,3 +66,79 @@ Proof.
   intros a e p He Hp. destruct e as [| e | e]; cbn [pow_mod]; [reflexivity | | lia].
   apply pow_mod_pos_spec. assumption.
 Qed.
+
+(* ---------- the INV loop of montgomery_backend.rs ---------- *)
+Lemma odd_square_mod8 : forall a, Z.odd a = true -> exists c, a * a = 1 + 8 * c.
+Proof.
+  intros a Ha. apply Z.odd_spec in Ha. destruct Ha as [b ->].
+  destruct (Z.even b) eqn:Eb.
+  - apply Z.even_spec in Eb. destruct Eb as [k ->]. exists (k * (2 * k + 1)). ring.
+  - assert (Ob : Z.odd b = true) by (rewrite <- Z.negb_even, Eb; reflexivity).
+    apply Z.odd_spec in Ob. destruct Ob as [k ->]. exists ((2 * k + 1) * (k + 1)). ring.
+Qed.
+
+(* a odd: a^(2^(n+1)) = 1 (mod 2^(n+3)) *)
+Lemma odd_pow2_pow : forall (n : nat) a, Z.odd a = true ->
+  exists c, a ^ (2 ^ (Z.of_nat n + 1)) = 1 + 2 ^ (Z.of_nat n + 3) * c.
+Proof.
+  induction n as [| n IH]; intros a Ha.
+  - destruct (odd_square_mod8 a Ha) as [c Hc]. exists c.
+    change (Z.of_nat 0 + 1) with 1. change (Z.of_nat 0 + 3) with 3.
+    change (2 ^ 1) with 2. change (2 ^ 3) with 8. rewrite Z.pow_2_r. exact Hc.
+  - destruct (IH a Ha) as [c Hc].
+    exists (c + 2 ^ (Z.of_nat n + 2) * c * c).
+    rewrite Nat2Z.inj_succ. set (N := Z.of_nat n) in *. assert (HN : 0 <= N) by (unfold N; lia).
+    replace (Z.succ N + 1) with (Z.succ (N + 1)) by lia.
+    rewrite (Z.pow_succ_r 2 (N + 1)) by lia. rewrite Z.pow_twice_r, Hc.
+    replace (Z.succ N + 3) with (Z.succ (Z.succ (N + 2))) by lia.
+    replace (N + 3) with (Z.succ (N + 2)) by lia.
+    rewrite !(Z.pow_succ_r 2) by lia. ring.
+Qed.
+
+Lemma mont_inv_loop_spec : forall (k : nat) inv m0 e, 0 <= e ->
+  inv mod W64 = m0 ^ e mod W64 ->
+  mont_inv_loop k inv m0 mod W64 = m0 ^ (2 ^ Z.of_nat k * (e + 1) - 1) mod W64.
+Proof.
+  assert (HW : W64 <> 0) by (unfold W64; lia).
+  induction k as [| k IH]; intros inv m0 e He Hinv; cbn [mont_inv_loop].
+  - rewrite Hinv. f_equal. f_equal. change (Z.of_nat 0) with 0. rewrite Z.pow_0_r. lia.
+  - rewrite (IH _ m0 (2 * e + 1)); [| lia |].
+    + f_equal. f_equal. rewrite Nat2Z.inj_succ, Z.pow_succ_r by lia. ring.
+    + rewrite Z.mod_mod by assumption.
+      rewrite Z.mul_mod_idemp_l by assumption.
+      rewrite (Z.mul_mod (inv * inv)) by assumption.
+      rewrite (Z.mul_mod inv inv) by assumption. rewrite Hinv.
+      rewrite <- (Z.mul_mod (m0 ^ e)) by assumption.
+      rewrite <- Z.mul_mod by assumption.
+      f_equal. rewrite Z.pow_add_r, Z.pow_1_r, Z.pow_twice_r by lia. ring.
+Qed.
+
+Lemma pow_pred : forall m E, 0 <= E -> m ^ E * m = m ^ (Z.succ E).
+Proof. intros m E HE. rewrite Z.pow_succ_r by assumption. apply Z.mul_comm. Qed.
+
+(* montgomery_backend.rs `inv`: for every odd modulus the computed INV satisfies INV * p = -1 (mod 2^64) *)
+Theorem mont_inv_model_spec : forall p, Z.odd p = true ->
+  0 <= mont_inv p < W64 /\ (mont_inv p * p) mod W64 = W64 - 1.
+Proof.
+  intros p Hp. assert (HW : W64 <> 0) by (unfold W64; lia).
+  split; [unfold mont_inv; apply Z.mod_pos_bound; unfold W64; lia|].
+  set (m0 := p mod W64).
+  assert (Hm0 : Z.odd m0 = true).
+  { pose proof (Z.div_mod p W64 HW) as D. rewrite D in Hp.
+    replace (W64 * (p / W64) + p mod W64) with (p mod W64 + 2 * (2 ^ 63 * (p / W64))) in Hp
+      by (unfold W64; change (2 ^ 64) with (2 * 2 ^ 63); ring).
+    rewrite Z.odd_add_mul_2 in Hp. exact Hp. }
+  pose proof (mont_inv_loop_spec 63 1 m0 0 ltac:(lia) eq_refl) as HL.
+  replace (2 ^ Z.of_nat 63 * (0 + 1) - 1) with (2 ^ 63 - 1) in HL by (rewrite Z.mul_1_r; reflexivity).
+  destruct (odd_pow2_pow 62 m0 Hm0) as [c Hc].
+  change (Z.of_nat 62 + 1) with 63 in Hc. change (Z.of_nat 62 + 3) with 65 in Hc.
+  assert (HLp : (mont_inv_loop 63 1 m0 * p) mod W64 = 1).
+  { rewrite Z.mul_mod, HL by assumption. fold m0.
+    rewrite Z.mul_mod_idemp_l by assumption.
+    assert (HE0 : 0 <= 2 ^ 63 - 1) by (vm_compute; discriminate).
+    rewrite (pow_pred m0 (2 ^ 63 - 1) HE0).
+    change (Z.succ (2 ^ 63 - 1)) with (2 ^ 63). rewrite Hc. change (2 ^ 65) with (W64 * 2). rewrite <- Z.mul_assoc, Z.mul_comm.
+    rewrite Z.mod_add by assumption. reflexivity. }
+  unfold mont_inv. fold m0. rewrite Z.mul_mod_idemp_l by assumption.
+  rewrite Z.mul_opp_l. rewrite Z.mod_opp_l_nz; [rewrite HLp; reflexivity | assumption | rewrite HLp; discriminate].
+Qed.
